@@ -164,14 +164,16 @@ def main(argv=None):
     findings = [f for f in load_known_findings() if f.get('property') == prop]
     open_f = [f for f in findings if f.get('status') == 'open']
     verdict = {}
-    violations, undecided, vacuous, known_lines = [], [], [], []
+    violations, undecided, vacuous, known_lines, unreachable_exits = [], [], [], [], []
     for name, items in sorted(groups.items()):
         kind = items[0][0].kind
         rs = [r['result'] for _, r in items]
         if kind == 'canary':
             # the negated goal False must NOT be unsat, otherwise the hypotheses are contradictory
-            if any(x == 'unsat' for x in rs): vacuous.append(name)
-            verdict[name] = 'canary-ok' if not any(x == 'unsat' for x in rs) else 'VACUOUS'
+            bad = any(x == 'unsat' for x in rs)
+            verdict[name] = 'canary-ok' if not bad else 'VACUOUS'
+            if bad and 'vacuity:exit' in name: unreachable_exits.append(name)
+            elif bad: vacuous.append(name)
             continue
         if all(x == 'unsat' for x in rs): verdict[name] = 'discharged'
         elif any(x == 'sat' for x in rs): verdict[name] = 'refuted'
@@ -191,6 +193,16 @@ def main(argv=None):
             verdict[name] = 'known-finding'
         else:
             violations.append(name)
+    # an exit path whose hypotheses are contradictory is unreachable (feasibility pruning ignores quantified
+    # hypotheses); that is harmless unless *every* exit of a function is unreachable (then its contract or a callee
+    # contract is inconsistent and nothing was really proved)
+    per_fn = {}
+    for name, v in verdict.items():
+        if '/vacuity:exit' in name:
+            fn = name.split('/vacuity:')[0]; per_fn.setdefault(fn, []).append(v)
+    for fn, vs in per_fn.items():
+        if vs and all(v == 'VACUOUS' for v in vs): vacuous.append(fn + '/all_exits_unreachable')
+    run.notes.append(dict(unreachable_exit_paths=unreachable_exits))
     code = 0
     out_lines = []
     for e in run.errors:
@@ -226,8 +238,13 @@ def finding_covers(run, f, name, items):
     """an open finding suppresses a refuted obligation only if, with the finding's witness signature excluded,
     nothing else fails (DESIGN 2.12)"""
     sig = f.get('signature')
+    if items is None:
+        # scan obligation: the finding names the offending site(s); any other offender is a new violation
+        sc = next((s for s in run.scans if s['name'] == name), None)
+        extra = (sc or {}).get('extra')
+        if extra is None: return not sig
+        return set(extra) <= {sig}
     if not sig: return True
-    if items is None: return True      # scan obligation: signature is matched by the scan itself
     formula = run.signatures.get(name, {}).get(sig)
     if formula is None: return False
     for o, r in items:
